@@ -408,6 +408,17 @@ S4_MORE = {
  "C10": "preprocess() under contract: the routine registered for the settings' preprocessing method is called once with the caller's recordings and settings; result returned unchanged.",
  "C19": "The two dispatchers the worker calls (preprocess, process) are under contract: the registered routine, once, with the caller's arguments.",
 }
+S4_MORE["C07"] = ("Also under contract: _read_sac - each of the three files is read in the first byte order obspy accepts (little, then big; obspy may fail: CAN_READ(file, order) is a "
+                 "named condition and the call forks on it), the first traces go to _arrange_traces in file-name order and its (ns, ew, vt) to the recording, an exception leaves the "
+                 "function exactly when some file reads in neither order, a single name is refused; read_single - the readers of the table are consulted in table order without gap "
+                 "or repeat, the recording is what the first accepting reader returns for the caller's file entry, options and orientation, an exception leaves the function only "
+                 "when no reader accepts (4 configurations of options / orientation given or not).")
+S4_MORE["C15"] = ("Settings.attr_dict on its executed body (a number, an array, a dictionary holding an array and a number, None, a list, and an attribute that is not listed): exactly "
+                 "the listed names in the listed order, arrays as lists of the same values also inside a dictionary, numbers / None / lists by value, and no array or list of the "
+                 "result is storage of the object (deep copy at every level).")
+S4_MORE["C19"] += (" cli() on its executed body: one pool, one starmap for the worker, one task per file name in the order given, task i = (file name i, the object read from the "
+                  "preprocessing settings file, the object read from the processing settings file, the options with the caller's values), pool of min(files, workers) "
+                  "processes and chunks of max(1, files // workers) for --nproc given and default; nothing is started under --no_figure --no_file.")
 for _k, _v in S4_MORE.items():
     S4[_k] = ((S4[_k][0] + " " + _v,) + tuple(S4[_k][1:])) if _k in S4 else (_v, None, None)
 for _pid, (_t, _n, _tech) in S4.items():
@@ -422,7 +433,8 @@ S4_ASSUME = {
          "A-NP-WHERE for flatten of a row selection"],
  "C06": ["update_peaks_bounded of a per-azimuth object = UPB(content, range, filters) (contract: C08)"],
  "C07": ["A-RE: every pattern's match is an opaque string with an identity, rows in file order", "int()/float() of matched text uninterpreted", "A-F32: stores into the float32 buffer are exact in the model",
-         "A-OBSPY: obspy.read opaque (STREAM(file))", "files with more rows than the header announces (buffer overrun, IndexError) are evaluated natively only"],
+         "A-OBSPY: obspy.read opaque (STREAM(file))", "files with more rows than the header announces (buffer overrun, IndexError) are evaluated natively only",
+         "SAC: obspy may fail per (file, byte order) - CAN_READ uninterpreted; a readable SAC file yields at least one trace", "read_single: the six readers opaque (ACCEPTS / PARSED of reader, file entry, options, orientation)"],
  "C08": ["mean curves opaque arrays of the grid's length in the mean-curve-peak proofs"],
  "C09": ["scipy detrend / tukey / butter / sosfiltfilt opaque (A-DETREND, A-TUKEY, A-SOSFILTFILT)"],
  "C10": ["scipy detrend / tukey / butter / sosfiltfilt opaque (A-DETREND, A-TUKEY, A-SOSFILTFILT)"],
@@ -433,9 +445,13 @@ S4_ASSUME = {
          "type invariant of per-azimuth objects (vectors / masks / rows have one entry per curve, one column per frequency)", "A-INDUCTION for the column offsets"],
  "C14": ["A-RNG: rng.normal(mean, std, size=n) is an opaque array of the call's position and arguments", "A-EXT: _statistics reads rows < K and columns < N only (its contract), instantiated for the array handed over",
          "shapely Point / contains / Polygon.area and the tessellation opaque in _cull_points / _voronoi_weights"],
- "C15": ["json / open opaque", "settings constructors with no arguments give default objects (their attribute lists: structural obligations)"],
+ "C15": ["json / open opaque", "settings constructors with no arguments give default objects (their attribute lists: structural obligations)",
+         "A-PYNUM: symbolic numbers are Python numbers (no .tolist(); a numpy scalar's tolist() returns the Python number of the same value - evaluated natively)",
+         "A-DEEPCOPY: copy.deepcopy of numbers, strings, None, arrays, lists, tuples, dictionaries gives equal content in fresh storage at every level"],
  "C17": ["np.mean of the squared taper = TAPER_MEAN_SQUARE(length, width) > 0", "per-component stages of psd_preprocess (_remove_instrument_response, _differentiate) opaque functions of (content, transfer function / FFT length)"],
  "C18": ["json / open opaque"],
- "C19": ["hvsrpy.read / preprocess / process / write_hvsr_object_to_file opaque stages (their contracts: C07, C10/C17, C01..C05, C12)", "deepcopy preserves content", "pathlib.Path(fname).stem + '.csv' as an uninterpreted function of the file name"],
+ "C19": ["hvsrpy.read / preprocess / process / write_hvsr_object_to_file opaque stages (their contracts: C07, C10/C17, C01..C05, C12)", "deepcopy preserves content", "pathlib.Path(fname).stem + '.csv' as an uninterpreted function of the file name",
+         "A-POOL in cli(): Pool(n) / starmap(function, tasks, chunksize) recorded, not executed; os.cpu_count() >= 2 and --nproc >= 1 are preconditions (otherwise the command fails before any file is processed)",
+         "click delivers the options as the keyword dictionary of cli() (decorators not modelled)"],
  "C20": ["matplotlib Axes and pandas as recorders of what they are handed", "plot_single_panel_hvsr_curves may raise ValueError at any call (nondeterministic) in the pre/post proof", "A-NP-WHERE for the enumeration of selected rows", "statistics accessors opaque functions of (object, distribution, n) (contracts: C05, C08, C11)"],
 }
